@@ -55,6 +55,15 @@ Definition go_sub (t u : gtime) : Z :=
   if go_equal (go_add u d) t then d
   else if go_before t u then min64 else max64.
 
+(* subMono (used by Sub when both values carry a monotonic clock reading; t, u = the readings):
+     d := Duration(t - u)
+     if d < 0 && t > u { return maxDuration }; if d > 0 && t < u { return minDuration }; return d *)
+Definition sub_mono (t u : Z) : Z :=
+  let d := wrap64 (t - u) in
+  if (d <? 0) && (u <? t) then max64
+  else if (0 <? d) && (t <? u) then min64
+  else d.
+
 (* ---------------------------------------------------------------- doublesign *)
 Inductive werr :=
 | NoErr | ErrNoConnections | ErrP2PSyncOngoing | ErrSelfEventsOngoing
